@@ -491,6 +491,13 @@ def rule_eos_by_read(ctx):
                     roots.append(norm(d.ast.value))
                     for k in names_used(d.ast.value):
                         work.append((k, d))
+        # calls made in the answer / its controlling tests themselves
+        exprs = ([v] if v is not None else []) + [b.ast.test for b, lab in _tdeps(cfg, y)
+                                                  if b.ast is not None and hasattr(b.ast, 'test') and 'isinstance(' not in norm(b.ast.test)]
+        for e in exprs:
+            for c in ast.walk(e):
+                if isinstance(c, ast.Call):
+                    roots.append(norm(c))
         calls = [r for r in roots if '(' in r]
         nonread = [r for r in calls if not r.startswith('%s.read(' % sub)]
         lit = v is not None and isinstance(v, ast.Constant)
